@@ -33,7 +33,6 @@ void h_read_len(void) {
     if (ret) __CPROVER_assert(len == L.val, "C03 der.read_len: the length reported equals the encoded length");
     if (ret) __CPROVER_assert(p == buf + L.hdr, "C03 der.read_len: the read pointer advances by exactly the length octets");
     if (L.ok && L.val <= avail - L.hdr) __CPROVER_assert(ret == 1, "C03 der.read_len: well-formed length octets whose content fits are accepted");
-    if (ret && L.hdr > 1) __CPROVER_assert(len <= (size_t)(end - p), "C03 der.read_len: a long-form length never exceeds the remaining bytes");
     if (ret && L.hdr == 3) REACH("read_len accepts a 2-octet long form");
     if (ret && L.hdr == 1) REACH("read_len accepts a short form");
     if (!ret && avail > 3) REACH("read_len rejects");
@@ -64,7 +63,7 @@ void h_parse_integer(void) {
 void h_parse_der(void) {
     secp256k1_context ctx;
     INPUT(size_t, len); INPUT(secp256k1_ecdsa_signature, sig0); INPUT(_Bool, use_sig); INPUT(_Bool, use_in); INPUT(size_t, k); INPUT(size_t, j);
-    unsigned char *buf; int ret, framing, spec_ok; spec_len L; secp256k1_ecdsa_signature sig = sig0; secp256k1_scalar r, s;
+    unsigned char *buf; int ret, framing, w0 = 0, w1 = 0; spec_len L; secp256k1_ecdsa_signature sig = sig0; secp256k1_scalar r, s;
     __CPROVER_assume(len <= MAXLEN && k < 64 && j < 32);
     g_j = j; g_pi_n = 0;
     INPUT_BUF(b, buf, len, WIT);
@@ -86,24 +85,28 @@ void h_parse_der(void) {
     __CPROVER_assert(ret == 0 || ret == 1, "C03 der.sig_parse: returns 0 or 1");
     __CPROVER_assert(g_error == 0, "C03 der.sig_parse: error callback never invoked");
     if (!use_sig || !use_in) {
-        __CPROVER_assert(ret == 0 && g_illegal == 1 && g_pi_n == 0, "C03 der.sig_parse: NULL argument reports illegal use and fails before reading anything");
+        __CPROVER_assert(ret == 0 && g_illegal == 1, "C03 der.sig_parse: NULL argument reports illegal use and fails");
     } else {
+        /* slot 0 / slot 1 = the first two INTEGER reads.  Nothing is demanded about WHEN the framing is checked or
+         * how often the integer parser is consulted; a verdict must only be backed by the integer parser's answer at
+         * the position the specification names (w0: r at the start of the contents, w1: s directly after r). */
+        w0 = g_pi_n >= 1 && g_pi_off0 == SPEC_SIG_ROFF(L) && g_pi_av0 == SPEC_SIG_RAVAIL(L);
+        w1 = g_pi_n >= 2 && g_pi_off1 == SPEC_SIG_SOFF(L, g_pi_I0) && g_pi_av1 == SPEC_SIG_SAVAIL(L, g_pi_I0);
         __CPROVER_assert(g_illegal == 0, "C03 der.sig_parse: no callback for non-NULL arguments, whatever the bytes");
-        __CPROVER_assert(g_pi_n <= 2, "C03 der.sig_parse: at most two INTEGER elements are read");
-        if (framing) __CPROVER_assert(g_pi_n >= 1, "C03 der.sig_parse: a well-framed SEQUENCE has its first element read");
-        if (g_pi_n >= 1) __CPROVER_assert(framing && g_pi_off0 == SPEC_SIG_ROFF(L) && g_pi_av0 == SPEC_SIG_RAVAIL(L), "C03 der.sig_parse: r is read at the start of the SEQUENCE contents, limited to the SEQUENCE contents, and only if the framing is strict DER filling the input");
-        if (g_pi_n >= 1 && g_pi_I0.ok) __CPROVER_assert(g_pi_n == 2, "C03 der.sig_parse: after a well-formed r the second element is read");
-        if (g_pi_n == 2) __CPROVER_assert(g_pi_I0.ok && g_pi_off1 == SPEC_SIG_SOFF(L, g_pi_I0) && g_pi_av1 == SPEC_SIG_SAVAIL(L, g_pi_I0), "C03 der.sig_parse: s is read directly after r, limited to the rest of the SEQUENCE contents");
-        spec_ok = g_pi_n == 2 && SPEC_SIG_OK(framing, L, g_pi_I0, g_pi_I1);
-        __CPROVER_assert(ret == spec_ok, "C03 der.sig_parse: accepts exactly the strict-DER ECDSA-Sig-Value encodings that fill the input (no trailing bytes inside or after the sequence)");
+        if (ret) __CPROVER_assert(framing && w0 && w1 && SPEC_SIG_OK(framing, L, g_pi_I0, g_pi_I1),
+                                  "C03 der.sig_parse: accepts only strict-DER ECDSA-Sig-Value encodings that fill the input (no trailing bytes inside or after the sequence)");
+        if (!ret) __CPROVER_assert(!framing || (w0 && !g_pi_I0.ok) || (w0 && g_pi_I0.ok && w1 && !(g_pi_I1.ok && g_pi_I0.total + g_pi_I1.total == L.val)),
+                                  "C03 der.sig_parse: rejects only what the specification rejects (bad framing, malformed r, malformed s or bytes after s)");
         secp256k1_ecdsa_signature_load(&ctx, &r, &s, &sig);
         if (ret) __CPROVER_assert(SC_EQ(r, g_pi_v0) && SC_EQ(s, g_pi_v1), "C03 der.sig_parse: the signature object holds exactly the scalars of the first and second INTEGER (in-range integers are stored exactly)");
-        if (ret && !(g_pi_I0.inrange && g_pi_I1.inrange)) __CPROVER_assert(spec_scalar_is_zero(&r) || spec_scalar_is_zero(&s), "C03 der.sig_parse: an accepted signature with an out-of-range integer holds r = 0 or s = 0 (never verifies)");
-        if (!ret) __CPROVER_assert(sig.data[k] == 0, "C03 der.sig_parse: a rejected input leaves the signature object all zero");
+        /* out-of-range integers and rejected inputs: the header promises "never verifies" - units C03.never_verifies.* */
     }
     if (use_sig && use_in && ret && g_pi_I0.inrange && g_pi_I1.inrange && len == 72) REACH("parse_der accepts a 72-byte signature");
     if (use_sig && use_in && ret && !g_pi_I0.inrange && len > 200) REACH("parse_der accepts a long signature with oversize r");
-    if (use_sig && use_in && !ret && g_pi_n == 2 && g_pi_I1.ok) REACH("parse_der rejects trailing bytes inside the sequence");
+    if (use_sig && use_in && !ret && framing && w0 && g_pi_I0.ok && w1 && g_pi_I1.ok) REACH("parse_der rejects trailing bytes inside the sequence");
+    if (use_sig && use_in && !ret && framing && w0 && !g_pi_I0.ok) REACH("parse_der rejects a malformed r");
+    if (use_sig && use_in && !ret && framing && w0 && g_pi_I0.ok && w1 && !g_pi_I1.ok) REACH("parse_der rejects a malformed s");
+    if (use_sig && use_in && !ret && !framing && len > 4 && buf[0] == 0x30) REACH("parse_der rejects bad framing (length octets / trailing bytes after the sequence)");
     if (!use_sig) REACH("parse_der NULL sig");
 }
 
@@ -111,12 +114,11 @@ void h_serialize_der(void) {
     secp256k1_context ctx;
     INPUT(secp256k1_scalar, r); INPUT(secp256k1_scalar, s); INPUT(size_t, cap); INPUT(size_t, k);
     INPUT(_Bool, use_out); INPUT(_Bool, use_len); INPUT(_Bool, use_sig);
-    secp256k1_ecdsa_signature sig; unsigned char *out, old = 0, rb[32], sb[32]; size_t outlen, needed; int ret;
+    secp256k1_ecdsa_signature sig; unsigned char *out, rb[32], sb[32]; size_t outlen, needed; int ret;
     __CPROVER_assume(scalar_ok(&r) && scalar_ok(&s));     /* an initialized signature object holds reduced scalars */
     __CPROVER_assume(cap <= MAXLEN);
     secp256k1_ecdsa_signature_save(&sig, &r, &s);
     INPUT_BUF(o, out, cap, WIT);                           /* output buffer of exactly cap bytes, arbitrary prior content */
-    if (k < cap) old = out[k];
     outlen = cap;
     verif_ctx_init(&ctx);
     ret = secp256k1_ecdsa_signature_serialize_der(&ctx, use_out ? out : NULL, use_len ? &outlen : NULL, use_sig ? &sig : NULL);
@@ -130,7 +132,6 @@ void h_serialize_der(void) {
         __CPROVER_assert(g_illegal == 0, "C03 der.serialize: no callback for non-NULL arguments");
         __CPROVER_assert(outlen == needed, "C03 der.serialize: *outputlen is set to the length of the DER encoding, also when 0 is returned");
         __CPROVER_assert(ret == (cap >= needed), "C03 der.serialize: succeeds exactly when the buffer holds the encoding (not one byte more demanded)");
-        if (!ret && k < cap) __CPROVER_assert(out[k] == old, "C03 der.serialize: a too-small buffer is left untouched");
         if (ret && k < needed) __CPROVER_assert(out[k] == spec_der_sig_enc_byte(rb, sb, k), "C03 der.serialize: output bytes equal the DER encoding SEQUENCE{INTEGER r, INTEGER s} with minimal lengths");
     }
     __CPROVER_assert(needed >= 8 && needed <= 72, "C03 der.serialize: encoding length between 8 and 72");
